@@ -1140,8 +1140,9 @@ pub trait DynSubject {
     fn est_cleared(&self) -> Option<EstDigest>;
     fn reseed(&mut self, seeds: [u64; 4]);
     fn clone_box(&self) -> Result<Option<Box<dyn DynSubject>>, String>;
-    /// traverse everything reachable, ignoring the audit verdict (used after injected panics)
-    fn traverse(&self) -> usize;
+    /// everything reachable through well-formed lists, ignoring the audit verdict of the
+    /// others (used after injected panics): (key object id, value object id, key)
+    fn reachable(&self) -> Vec<(u64, u64, u32)>;
 }
 
 pub struct Wrap<K: KeyLike, C: Subject<K>>(pub C, PhantomData<K>);
@@ -1228,20 +1229,19 @@ impl<K: KeyLike, C: Subject<K> + 'static> DynSubject for Wrap<K, C> {
         crate::talloc::in_lib(false);
         Ok(r?.map(|c| Box::new(Wrap::<K, C>(c, PhantomData)) as Box<dyn DynSubject>))
     }
-    fn traverse(&self) -> usize {
-        let mut n = 0;
+    fn reachable(&self) -> Vec<(u64, u64, u32)> {
+        let mut out = vec![];
         if let Ok(ls) = guarded(|| self.0.lists(false)) {
             for (_, r) in ls {
                 if let Ok(v) = r {
                     for (k, val) in v {
-                        n += 1;
-                        std::hint::black_box(k.key_num());
                         std::hint::black_box(val.read());
+                        out.push((k.oid(), val.id, k.key_num()));
                     }
                 }
             }
         }
-        n
+        out
     }
 }
 
